@@ -198,13 +198,13 @@ theorem bmode_eq_spec (prob : Slot → UInt8) (top left : Nat) (probs : Nat → 
     rows hold the RFC's `coeff_probs`), factors and prior block content. -/
 theorem tokens_eq_spec (prob : Slot → UInt8) (probs : Array Nat) (t ctx : Nat) (dq0 dq1 : Int)
     (first base : Nat) (coeffs : Array Int) (hc : CoefOK prob probs t) (hfix : FixedOK prob) (hf : first ≤ 16)
-    (hsz : base + 16 ≤ coeffs.size) {F : Bytes} {r : BoolReader} {d : BoolDec} (hs : Sim F r d)
+    (hctx : ctx ≤ 2) (hsz : base + 16 ≤ coeffs.size) {F : Bytes} {r : BoolReader} {d : BoolDec} (hs : Sim F r d)
     (hfree : TreeFree prob (T.getCoeffs t ctx dq0 dq1 first (toC coeffs base)) r) :
     ∃ r', runR prob (T.getCoeffs t ctx dq0 dq1 first (toC coeffs base)) r =
         some (((Webp.Spec.VP8.readBlock probs t first ctx dq0 dq1 base coeffs d).1,
                toC (Webp.Spec.VP8.readBlock probs t first ctx dq0 dq1 base coeffs d).2.1 base), r') ∧
       Sim F r' (Webp.Spec.VP8.readBlock probs t first ctx dq0 dq1 base coeffs d).2.2.2 :=
-  getCoeffs_eq_readBlock prob probs t ctx dq0 dq1 first base coeffs hc hfix hf hsz hs hfree
+  getCoeffs_eq_readBlock prob probs t ctx dq0 dq1 first base coeffs hc hfix hf hctx hsz hs hfree
 
 /-- the hypotheses on the probability table are satisfiable (all coefficient probabilities 128) -/
 example : ∃ prob : Slot → UInt8, FixedOK prob ∧ CoefOK prob #[] 3 := by
@@ -214,7 +214,7 @@ example : ∃ prob : Slot → UInt8, FixedOK prob ∧ CoefOK prob #[] 3 := by
   · intro p hp
     show (UInt8.ofNat p).toNat = p
     simp [UInt8.toNat_ofNat']; omega
-  · intro i c k
+  · intro i c k _ _ _
     rfl
 
 /-! ## Layer 3 — reconstruction: dequantisation -/
